@@ -577,6 +577,15 @@ def arrangements(ctx):
                 k += 1
                 if k % ctx.nshards == ctx.shard:
                     yield ('factory', mk, names_kind, 'single', 'minify_obfuscate', 'default', True, (prog,))
+    # programs whose printed form is empty (no token at all): still a program, written like any other
+    for prog in ('', '/* nothing but a comment */', ' \n\n'):
+        for mk in ('none', 'factory', 'same'):
+            for pn in ('minify_obfuscate', 'pretty'):
+                for nk_nodes in ('single', 'list'):
+                    k += 1
+                    if k % ctx.nshards == ctx.shard:
+                        yield ('factory', mk, 'relative', nk_nodes, pn, 'default', True,
+                               (prog,) if nk_nodes == 'single' else (prog, prog))
     # further layouts of the three names (characters that are separators elsewhere, map deeper / shallower than
     # the output, blanks and non-ASCII), with each way of passing the map stream
     for nk in more_names:
